@@ -135,6 +135,15 @@ func (n *Node) Apply(hdr *blockchain.BlockHeader) error {
 	return nil
 }
 
+// DumpDB returns a canonical text dump of all key/value pairs of the database.
+func DumpDB(d *db.DB) string {
+	s := ""
+	for _, kv := range d.Iterate([]byte{}, -1, false) {
+		s += fmt.Sprintf("%x=%x\n", kv.Key(), kv.Value())
+	}
+	return s
+}
+
 // Obs is the projection of the real BFT store onto the spec's votes record.
 type Obs struct {
 	Mhpv  uint32     `json:"mhpv"`
